@@ -20,6 +20,9 @@ type DigSpec struct {
 	Levels int       `json:"levels"`
 	Alpha  [4]uint64 `json:"alpha"`
 	Salt   uint64    `json:"salt"`
+	// Top[l]: the digests of level l are counted down from the largest 64-bit value instead of up from zero, so
+	// that the extremes (0xFFFF...FF, and its neighbours) occur as digests
+	Top [4]bool `json:"top,omitempty"`
 }
 
 func mix64(x uint64) uint64 {
@@ -40,6 +43,9 @@ func (d *DigSpec) digest(canon string, level int) uint64 {
 	h = mix64(h + uint64(level)*0x9E3779B97F4A7C15)
 	if a := d.Alpha[level]; a != 0 {
 		h %= a
+	}
+	if d.Top[level] {
+		h = ^uint64(0) - h
 	}
 	return h
 }
